@@ -73,7 +73,7 @@ func cmdCheck(args []string) int {
 	fs.StringVar(&cfg.only, "only", "", "only functions whose name contains this")
 	fs.StringVar(&cfg.outDir, "out", "/verif/out", "scratch directory")
 	fs.StringVar(&cfg.repo, "repo", "/repo", "repository")
-	fs.IntVar(&cfg.par, "par", 12, "parallel obligations")
+	fs.IntVar(&cfg.par, "par", 9, "parallel obligations")
 	if len(args) < 1 {
 		fmt.Fprintln(os.Stderr, "usage: govc check <property>")
 		return 2
